@@ -247,6 +247,13 @@ class DocutilsRenderer(RendererProtocol):
                 self._heading_slugs
             )
 
+        # a file-level ``ref_domains``, for the (project wide) sphinx reference resolver
+        global_config = getattr(self.sphinx_env, "myst_config", None)
+        if global_config and self.md_config.ref_domains != global_config.ref_domains:
+            self.sphinx_env.metadata[self.sphinx_env.docname]["myst_ref_domains"] = (
+                self.md_config.ref_domains
+            )
+
         # ensure these are set for later footnote transforms
         # (on the document, not on its settings: the docutils parser reads
         # the global configuration from settings of exactly these names)
